@@ -329,3 +329,11 @@ fn is_variable_usage_allowed(
 
     variable_ty.is_assignable_to(location_ty)
 }
+
+#[cfg(apollo_rs_verif)]
+pub(crate) fn verif_is_variable_usage_allowed(
+    variable_def: &ast::VariableDefinition,
+    variable_usage: &ast::InputValueDefinition,
+) -> bool {
+    is_variable_usage_allowed(variable_def, variable_usage)
+}
